@@ -97,7 +97,7 @@ type EventBus struct {
 	afterPublish     PublishHook
 	beforePublishCtx PublishHookContext
 	afterPublishCtx  PublishHookContext
-	wg               sync.WaitGroup
+	wg               asyncTracker
 
 	// Optional persistence fields (nil if not using persistence)
 	store                   EventStore
@@ -114,6 +114,37 @@ type EventBus struct {
 
 	// Optional observability (metrics & tracing)
 	observability Observability
+}
+
+// asyncTracker counts in-flight async handlers. Unlike sync.WaitGroup it may be
+// incremented from zero while another goroutine is waiting, which is what
+// happens when Publish and Wait are called concurrently.
+type asyncTracker struct {
+	mu   sync.Mutex
+	cond *sync.Cond
+	n    int
+}
+
+func (t *asyncTracker) Add(delta int) {
+	t.mu.Lock()
+	t.n += delta
+	if t.n == 0 && t.cond != nil {
+		t.cond.Broadcast()
+	}
+	t.mu.Unlock()
+}
+
+func (t *asyncTracker) Done() { t.Add(-1) }
+
+func (t *asyncTracker) Wait() {
+	t.mu.Lock()
+	if t.cond == nil {
+		t.cond = sync.NewCond(&t.mu)
+	}
+	for t.n > 0 {
+		t.cond.Wait()
+	}
+	t.mu.Unlock()
 }
 
 // TypeNamer is an optional interface that events can implement to provide
